@@ -123,8 +123,9 @@ MapsSeq(ms) == SetToSeq({MapSeq(m) : m \in ms})
 HasHelpTok(w) == \E i \in 1..Len(w) : IsHelpTok(w[i])
 RECURSIVE HasDD(_)
 HasDD(w) == \E i \in 1..Len(w) : IsDD(w[i])
+HasVersionTok(w) == \E i \in 1..Len(w) : Join(w[i]) \in SeqToSet(Tree.version)
 UnclaimedHelp ==
-  \/ (outcome.kind = "version" /\ HasHelpTok(argv))
+  \/ (HasVersionTok(argv) /\ HasHelpTok(argv))
   \/ (outcome.kind = "help" /\ \E k \in 1..Len(levels) : HasDD(levels[k].own))
 \* the verdict of some level depends on the listed greedy-group finding
 GreedyMatters == \E k \in 1..Len(levels) : AccGreedy(levels[k].node, levels[k].own) # levels[k].acc
